@@ -197,6 +197,56 @@ type hdrCase struct {
 // framing and role; ctx: its context is done from the start; ok: it got its header out.
 var priors = []string{"wf1", "wf2", "wfb", "wfx", "ctx", "ok"}
 
+// sharedPriors (round E): histories of the NEGOTIATOR VALUE the session under test is given.  A
+// Negotiator "may be shared by many sessions" (negotiator.go), so nothing a session is told or
+// tells may depend on which sessions the value served before.  The value first serves one (nk, nr,
+// nf) or two (nkk) OTHER sessions: nk: the other kind (c2s <-> s2s), same role, success; nr: the
+// other kind and the other role; nf: the other kind, its first write fails; nkk: the other kind,
+// then the own kind, then the session under test; nsame: the same kind (control).
+var sharedPriors = []string{"nk", "nr", "nf", "nkk", "nsame"}
+
+func isSharedPrior(k string) bool { return strings.HasPrefix(k, "n") }
+
+// runSharedPrior runs the history `kind` on the negotiator value neg.
+func runSharedPrior(kind string, c hdrCase, neg xmpp.Negotiator) {
+	type other struct{ s2s, recv, fail bool }
+	var hist []other
+	switch kind {
+	case "nk":
+		hist = []other{{!c.s2s, c.recv, false}}
+	case "nr":
+		hist = []other{{!c.s2s, !c.recv, false}}
+	case "nf":
+		hist = []other{{!c.s2s, c.recv, true}}
+	case "nkk":
+		hist = []other{{!c.s2s, c.recv, false}, {c.s2s, !c.recv, false}}
+	case "nsame":
+		hist = []other{{c.s2s, c.recv, false}}
+	}
+	loc, orig := jid.MustParse(victimLoc), jid.MustParse(victimOrig)
+	for _, o := range hist {
+		var st xmpp.SessionState
+		xmlns := "jabber:client"
+		if o.s2s {
+			st |= xmpp.S2S
+			xmlns = "jabber:server"
+		}
+		var conn *nc.Conn
+		if o.recv {
+			st |= xmpp.Received
+			conn = nc.NewConn(nc.S(peerHeader(c.ws, xmlns, "", orig.String(), loc.String())))
+		} else {
+			conn = nc.NewConn()
+		}
+		if o.fail {
+			conn.FailWriteCall = 1
+		}
+		_ = common.Recover(func() {
+			_, _ = xmpp.NewSession(context.Background(), loc, orig, conn, st, neg)
+		})
+	}
+}
+
 const (
 	victimLoc  = "victim.example"
 	victimOrig = "secret@victim.example/s3cr3t"
@@ -261,16 +311,22 @@ func runHdr(r *common.Run, c hdrCase, class string) {
 	}
 	var conn *nc.Conn
 	var to, from string
-	runPrior(c.prior, c)
+	var sess *xmpp.Session
+	neg := negotiator(c.ws, c.lang)
+	if isSharedPrior(c.prior) {
+		runSharedPrior(c.prior, c, neg)
+	} else {
+		runPrior(c.prior, c)
+	}
 	p := common.Recover(func() {
 		if c.recv {
 			// the peer (initiator) announces from=orig to=loc; we answer to=orig from=loc
 			conn = nc.NewConn(nc.S(peerHeader(c.ws, xmlns, "", orig.String(), loc.String())))
-			_, _ = xmpp.NewSession(context.Background(), loc, orig, conn, st|xmpp.Received, negotiator(c.ws, c.lang))
+			sess, _ = xmpp.NewSession(context.Background(), loc, orig, conn, st|xmpp.Received, neg)
 			to, from = orig.String(), loc.String()
 		} else {
 			conn = nc.NewConn()
-			_, _ = xmpp.NewSession(context.Background(), loc, orig, conn, st, negotiator(c.ws, c.lang))
+			sess, _ = xmpp.NewSession(context.Background(), loc, orig, conn, st, neg)
 			to, from = loc.String(), orig.String()
 		}
 	})
@@ -366,6 +422,15 @@ func runHdr(r *common.Run, c hdrCase, class string) {
 		check("xmlns", "", "xmlns", xmlns)
 		if got.Name != (xml.Name{Space: nsStream, Local: "stream"}) {
 			r.Fail("header-faithful", "name", lines, "not stream:stream")
+		}
+	}
+	// the session's own record of what it sent (Session.Out(), a C12 observation point) names the
+	// content namespace of ITS stream kind and the id it printed
+	if sess != nil {
+		if o := sess.Out(); o.XMLNS != xmlns {
+			r.Fail("header-faithful", "out-info-xmlns", lines, fmt.Sprintf("Session.Out().XMLNS = %q on a stream whose content namespace is %q", o.XMLNS, xmlns))
+		} else if o.ID != id {
+			r.Fail("header-faithful", "out-info-id", lines, fmt.Sprintf("Session.Out().ID = %q, the header says %q", o.ID, id))
 		}
 	}
 	if len(got.Attr) != len(uniqueAttrs(got.Attr)) {
@@ -1682,7 +1747,7 @@ func Run(r *common.Run) error {
 				}
 				runHdr(r, hdrCase{recv: recv, ws: ws, s2s: s2s, loc: "", orig: ""}, "hdr-noaddr")
 				// ---- the same after each history (a failed / cancelled / successful other session) ----
-				for _, pr := range priors {
+				for _, pr := range append(append([]string{}, priors...), sharedPriors...) {
 					for _, j := range []string{"user@example.net/res", "user@example.net/x'y", "user@example.net/a<b>c"} {
 						runHdr(r, hdrCase{recv: recv, ws: ws, s2s: s2s, loc: "example.net", orig: j, lang: "en", prior: pr}, "hdr-after-"+pr)
 					}
@@ -1692,6 +1757,7 @@ func Run(r *common.Run) error {
 		}
 	}
 	r.Exhaustive = append(r.Exhaustive, "stream header after every history (another session whose 1st / 2nd write fails, whose connection takes 10 bytes, on the other framing and role, cancelled, successful) x role x framing x c2s/s2s")
+	r.Exhaustive = append(r.Exhaustive, "stream header of a session whose Negotiator VALUE served other sessions before (other kind c2s<->s2s, other role, failed write, two sessions, same kind) x role x framing x c2s/s2s")
 	// random resourceparts over a special-character alphabet
 	alpha := []rune("ab'\"&<>;#x/@ =é\t")
 	n := r.Pick(300, 5000)
@@ -1715,7 +1781,8 @@ func Run(r *common.Run) error {
 		}
 		prior := ""
 		if rnd.Chance(1, 4) {
-			prior = priors[rnd.Intn(len(priors))]
+			all := append(append([]string{}, priors...), sharedPriors...)
+			prior = all[rnd.Intn(len(all))]
 		}
 		runHdr(r, hdrCase{recv: rnd.Bool(), ws: rnd.Bool(), s2s: rnd.Bool(), loc: "example.net", orig: j.String(), lang: lang, prior: prior}, "hdr-random")
 	}
